@@ -66,8 +66,20 @@ pub fn check(c: &LitCase) -> CaseReport {
         Some(v) => v,
         None => return CaseReport::discard(s, "ill-formed (outside the statement)"),
     };
-    let (nt, classes) = classify(s);
+    let (nt, mut classes) = classify(s);
     let db = shared_db();
+    // one case in eight follows a string the number parser refuses (result ignored): what a failed parse
+    // leaves behind must not leak into the next literal
+    {
+        let h = s.bytes().fold(0xcbf29ce484222325u64, |h, b| (h ^ b as u64).wrapping_mul(0x100000001b3));
+        if h % 8 == 0 {
+            const JUNK: [&str; 8] = ["12x", "1e99999999999", "7e4294967296", "1.2.3", "1e", "--1", "5e-", "9999999999x9"];
+            let j = JUNK[((h >> 8) % 8) as usize];
+            let _ = guarded(j, || j.parse::<anything::Rational>().is_ok());
+            let _ = run(db, j);
+            classes.push("after-a-refused-literal");
+        }
+    }
     let fail = |sig: &str, obs: &str, got: String| {
         CaseReport::fail(s, sig, json!({"literal": s, "observation": obs, "expected": want.to_string(), "got": got}))
     };
